@@ -4,7 +4,8 @@ stdin : {"src": <repo>/src, "argv": [...], and either
            "history": [query...], "final": [query...], "snapshot": bool, "watch": [file...]   (a history, then the query;
                                           "growth": per final query, what it appended to each watched file)
          or "pool": [query...], "seq": [pool index...], "residue": bool, "share_config": bool (a walk over a pool)
-         or "forkpool": [query...]        (each query in its own child forked before anything was analysed)}
+         or "forkpool": [query...], "watch": [file...]   (each query in its own child forked before anything was analysed;
+                                          with watch every answer is [answer, growth of the watched files])}
 stdout, history form:
         {"answers": [...for the final queries...], "loads": [[module, hit]...] per call of _load_handler,
          "loads_per_query": [n...], "cache_info": [hits, misses, maxsize, currsize], "state": {...},
@@ -122,6 +123,31 @@ def cache_info():
     return [ci.hits, ci.misses, ci.maxsize, ci.currsize]
 
 
+watch = job.get("watch") or []
+
+
+def sizes():
+    out = []
+    for p in watch:
+        try:
+            out.append(os.path.getsize(p) if os.path.isfile(p) else 0)
+        except OSError:
+            out.append(0)
+    return out
+
+
+def grown(s0):
+    g = []
+    for i, (a, b) in enumerate(zip(s0, sizes())):
+        if b > a:
+            with open(watch[i], "rb") as f:
+                f.seek(a)
+                g.append([i, a, b, f.read().decode("utf-8", "replace")])
+        elif b < a:
+            g.append([i, a, b, ""])      # truncated, removed or replaced
+    return g
+
+
 if "forkpool" in job:
     # every query in its own child forked from this process, which has imported dippy and analysed nothing
     answers = []
@@ -131,7 +157,9 @@ if "forkpool" in job:
         if pid == 0:
             try:
                 os.close(r)
-                data = json.dumps(run(q)).encode()
+                s0 = sizes()
+                a = run(q)
+                data = json.dumps([a, grown(s0)] if watch else a).encode()
                 os.write(w, data)
             finally:
                 os._exit(0)
@@ -197,19 +225,7 @@ for q in job["history"]:
     run(q)
     per_query.append(len([c for c in st.CALLS[n0:] if c[0] == LOADER]))
 answers = []
-watch = job.get("watch") or []
 growth = []
-
-
-def sizes():
-    out = []
-    for p in watch:
-        try:
-            out.append(os.path.getsize(p) if os.path.isfile(p) else 0)
-        except OSError:
-            out.append(0)
-    return out
-
 
 for q in job["final"]:
     n0 = len(st.CALLS)
@@ -217,15 +233,7 @@ for q in job["final"]:
     answers.append(run(q))
     per_query.append(len([c for c in st.CALLS[n0:] if c[0] == LOADER]))
     if watch:
-        g = []
-        for i, (a, b) in enumerate(zip(s0, sizes())):
-            if b > a:
-                with open(watch[i], "rb") as f:
-                    f.seek(a)
-                    g.append([i, a, b, f.read().decode("utf-8", "replace")])
-            elif b < a:
-                g.append([i, a, b, ""])      # truncated, removed or replaced
-        growth.append(g)
+        growth.append(grown(s0))
 changed = []
 if before is not None:
     changed = st.diff(before, st.snapshot(roots()))[:60]
